@@ -1309,12 +1309,11 @@ start_parameter (GMarkupParseContext *context,
   else
     param->nullable = FALSE;
 
-  /* allow-none is the legacy spelling; it only decides when neither of the
-   * attributes that replaced it is present */
-  if (allow_none && strcmp (allow_none, "1") == 0 &&
-      nullable == NULL && optional == NULL)
+  /* the legacy allow-none means optional for an out parameter and nullable
+   * for in and inout parameters (as in giscanner/ast.py and girwriter.py) */
+  if (allow_none && strcmp (allow_none, "1") == 0)
     {
-      if (param->out)
+      if (param->out && !param->in)
         param->optional = TRUE;
       else
         param->nullable = TRUE;
